@@ -450,7 +450,7 @@ func (q *Regexp) setCase(k string) {
 	case "no":
 		q.CaseSensitive = false
 	case "auto":
-		q.CaseSensitive = !q.Regexp.Equal(LowerRegexp(q.Regexp))
+		q.CaseSensitive = regexpHasUpper(q.Regexp)
 	}
 }
 
